@@ -38,9 +38,16 @@ def parseInit (j : Json) : R (Cfg × Test × Estim × Bet) := do
   let kw ← parseKw (← fld j "kw")
   let cfg0 := Cfg.init estimS.isSome betS.isSome u N t ro kw
   let uNow ← optF j "u_now" asRat
-  let cfg := match uNow with
+  let cfg1 := match uNow with
     | some v => { cfg0 with u := v }
     | none => cfg0
+  -- call-time keywords `atol`, `rtol` of alpha_mart / betting_mart (absent = the defaults 2 eps, 1e-6)
+  let cfg2 := match (← optF j "atol" asRat) with
+    | some v => { cfg1 with atol := v }
+    | none => cfg1
+  let cfg := match (← optF j "rtol" asRat) with
+    | some v => { cfg2 with rtol := v }
+    | none => cfg2
   let e ← parseEstim (estimS.getD "fixed_alternative_mean")
   let b ← parseBet (betS.getD "fixed_bet")
   let test ← match testS.getD "alpha_mart" with
